@@ -41,7 +41,7 @@ class Contract(object):
     def __init__(self, key, params=None, types=None, env=None, requires=None, ensures=None, raises=None,
                  xensures=None, modifies=None, ghost=None, loops=None, inline=False, pure=False,
                  result_type=None, fresh_result=None, assumes=None, note=None, opaque_calls=None,
-                 covers=None, ghost_init=None, callbacks=None):
+                 covers=None, ghost_init=None, callbacks=None, preserves=None, protected=None, params_rename=None, ghost_modifies=None, distinct=None):
         self.key = key
         self.params = params              # for externals: list of parameter names (defaults None)
         self.types = types or {}          # param name -> 'str' | 'int' | 'bool' | 'float' | 'dict' | 'list' | 'obj' | 'any' | 'json'
@@ -67,6 +67,11 @@ class Contract(object):
         self.covers = _clauses(covers)    # must be reachable / satisfiable at entry (vacuity guards)
         self.ghost_init = ghost_init or {}
         self.callbacks = callbacks or []
+        self.distinct = [ast.parse(m, mode="eval").body for m in (distinct or [])]
+        self.ghost_modifies = ghost_modifies   # None: any ghost may change; list: only these (plus `ghost=` keys)
+        self.preserves = (preserves if preserves == "PROTECTED" else
+                          [ast.parse(m, mode="eval").body for m in (preserves or [])])
+        self.protected = [ast.parse(m, mode="eval").body for m in (protected or [])]
 
 
 class Registry(object):
@@ -89,6 +94,17 @@ class Registry(object):
 
     def ghost(self, name, sort):
         self.ghost_sorts[name] = sort
+
+    def markers(self):
+        """Ghost variables set by the `ghost=` clause of *unit* contracts: they record direct calls (with their
+        arguments) made by the unit under verification and are never changed by a callee."""
+        m = getattr(self, "_markers", None)
+        if m is None or self._markers_n != len(self.by_key):
+            m = set()
+            for c in self.by_key.values():
+                m |= set(c.ghost)
+            self._markers, self._markers_n = m, len(self.by_key)
+        return m
 
     def match_external(self, dotted):
         for pat, c in self.externals:
